@@ -169,4 +169,39 @@ example : doneTest nmW tR fsW (1, 5) = false
     ∧ doneTest nmW (fixTreeF true true nmW [] [(0, 0)] (tR, fsW)).1 (fixTreeF true true nmW [] [(0, 0)] (tR, fsW)).2 (1, 5) = true := by
   decide
 
+/-! ### non-vacuity of the named hypotheses `WF`, `DefaultsNeeded`, `Unclaimed` (audit round 8, item 6) -/
+
+/-- a deprecated task (class 1) holding a nested configuration (node 1, class 0) -/
+def nodesN : List CNode := [{ cls := 1, args := [{ name := [120], value := .ref 1 }] }, { cls := 0, args := [{ name := [120], value := .int 3 }] }]
+
+theorem nodesN_WF : WF (CGraph.toGraph ⟨csAfter, nodesN⟩) := by
+  intro n hn m hm
+  have h2 : n = 0 ∨ n = 1 := by
+    have : (CGraph.toGraph ⟨csAfter, nodesN⟩).size = 2 := by decide
+    omega
+  rcases h2 with rfl | rfl
+  · have : succAll (CGraph.toGraph ⟨csAfter, nodesN⟩) 0 = [1] := by decide
+    rw [this] at hm; simp at hm; subst hm; decide
+  · have : succAll (CGraph.toGraph ⟨csAfter, nodesN⟩) 1 = [] := by decide
+    rw [this] at hm; cases hm
+
+theorem nodesN_defaultsNeeded : DefaultsNeeded (CGraph.toGraph ⟨csAfter, nodesN⟩) [0] := by
+  intro n _ m hm
+  have h : ∀ k, nodeDfltRefs ((CGraph.toGraph ⟨csAfter, nodesN⟩).node k) = [] := by
+    intro k
+    match k with
+    | 0 => decide
+    | 1 => decide
+    | k + 2 => first | rfl | (simp [Graph.node, CGraph.toGraph, nodesN, nodeDfltRefs]; done) | (unfold Graph.node; simp [CGraph.toGraph, nodesN]; rfl)
+  rw [h n] at hm; cases hm
+
+theorem tR_unclaimed : Unclaimed (0, 0) (1, 5) tR := by
+  refine ⟨.inl (by decide), ?_⟩
+  intro j d' h
+  unfold tR ofList at h
+  simp only [List.find?] at h
+  split at h
+  · rename_i heq; simp at heq; exact heq.symm
+  · simp at h
+
 end XpmVerif.C20
